@@ -19,7 +19,7 @@ func (c08) Budget(tier string) int {
 	if tier == "thorough" {
 		return len(allCartConfigs) * 400
 	}
-	return len(allCartConfigs) * 12
+	return len(allCartConfigs) * 40
 }
 
 func (c08) Describe() engine.Info {
